@@ -73,6 +73,20 @@ func writeReplay(w *World, outDir string, cone *Cone, r *Result, repo string) *R
 			okAll := true
 			for i, t := range r.Obl.RetTerms {
 				rt := fn.Signature.Results().At(i).Type()
+				if rt.String() == "error" {
+					// an error result: the model predicts whether it is nil
+					nv, err := getValues(r.File, []string{"(= " + t + " nil)"})
+					if err != nil {
+						okAll = false
+						break
+					}
+					if nv["(= "+t+" nil)"] == "true" {
+						want = append(want, "NILERR")
+					} else {
+						want = append(want, "ERR")
+					}
+					continue
+				}
 				b, isB := under(rt).(*types.Basic)
 				if !isB || b.Info()&(types.IsInteger|types.IsBoolean) == 0 {
 					okAll = false
@@ -102,7 +116,7 @@ func writeReplay(w *World, outDir string, cone *Cone, r *Result, repo string) *R
 			}
 		}
 	}
-	if ran && !confirmed {
+	if ran && !confirmed && !rf.Confirmed {
 		rf.Note = "the solver's model did not make the real code fail (callee contracts are weaker than their bodies, or uninterpreted externals): reported without a failing input"
 	}
 	return rf
@@ -184,6 +198,17 @@ func goTypeExpr(t types.Type, pkg *types.Package) string {
 	})
 }
 
+type structField struct {
+	name, term string
+	t          types.Type
+}
+
+type structParam struct {
+	name, term string
+	t          types.Type
+	fields     []structField
+}
+
 func modelInputs(w *World, fn *ssa.Function, r *Result) (map[string]string, bool, string) {
 	pkg := fn.Pkg.Pkg
 	inputs := map[string]string{}
@@ -195,6 +220,7 @@ func modelInputs(w *World, fn *ssa.Function, r *Result) (map[string]string, bool
 	}
 	var terms []string
 	var pend []pending
+	var structs []structParam
 	pname := func(p *ssa.Parameter) string {
 		if s, ok := r.Obl.ParamSubst[p.Name()]; ok {
 			return s
@@ -215,6 +241,25 @@ func modelInputs(w *World, fn *ssa.Function, r *Result) (map[string]string, bool
 				terms = append(terms, "(slen "+sl+")", "(= (sarr "+sl+") nil)", "(= "+n+" nil)")
 				continue
 			}
+			if pt, ok := under(t).(*types.Pointer); ok {
+				if st, sname := structOf(pt); st != nil && sname != "" {
+					// pointer to a struct of the module: built as &T{...} from the scalar fields of the model (other
+					// fields zero)
+					sp := structParam{name: p.Name(), term: n, t: pt.Elem()}
+					for i := 0; i < st.NumFields(); i++ {
+						fb, isB := under(st.Field(i).Type()).(*types.Basic)
+						if !isB || fb.Info()&(types.IsInteger|types.IsBoolean) == 0 {
+							continue
+						}
+						key := w.fieldKey(sname, st, i) // F:pkg.T.f, or the cell key T:<type> for address-taken fields
+						ft := "(select H0_" + sanitize(key) + " (emb " + n + " " + fmt.Sprint(i) + "))"
+						sp.fields = append(sp.fields, structField{st.Field(i).Name(), ft, st.Field(i).Type()})
+					}
+					structs = append(structs, sp)
+					terms = append(terms, "(= "+n+" nil)")
+					continue
+				}
+			}
 			b, ok := under(t).(*types.Basic)
 			if !ok {
 				return nil, false, "parameter " + p.Name() + " of type " + t.String()
@@ -232,6 +277,47 @@ func modelInputs(w *World, fn *ssa.Function, r *Result) (map[string]string, bool
 	vals, err := getValues(r.File, terms)
 	if err != nil {
 		return nil, false, err.Error()
+	}
+	src, _ := os.ReadFile(r.File)
+	for _, sp := range structs {
+		if vals["(= "+sp.term+" nil)"] == "true" {
+			inputs[sp.name] = "nil"
+			continue
+		}
+		var ts []string
+		var fs []structField
+		for _, f := range sp.fields {
+			// only fields whose heap array is declared in this query can be read from the model
+			decl := f.term[len("(select "):strings.Index(f.term, " (emb")]
+			if strings.Contains(string(src), "(declare-const "+decl+" ") || strings.Contains(string(src), "(declare-fun "+decl+" ") {
+				ts = append(ts, f.term)
+				fs = append(fs, f)
+			}
+		}
+		var inits []string
+		if len(ts) > 0 {
+			fv, err := getValues(r.File, ts)
+			if err != nil {
+				return nil, false, err.Error()
+			}
+			for _, f := range fs {
+				fb := under(f.t).(*types.Basic)
+				if fb.Info()&types.IsBoolean != 0 {
+					inits = append(inits, f.name+": "+fv[f.term])
+					continue
+				}
+				x, ok := smtInt(fv[f.term])
+				if !ok {
+					continue
+				}
+				if lo, _, _ := intRange(f.t); lo.Sign() == 0 {
+					inits = append(inits, fmt.Sprintf("%s: %s(%d)", f.name, goTypeExpr(f.t, pkg), uint64(x)))
+				} else {
+					inits = append(inits, fmt.Sprintf("%s: %s(%d)", f.name, goTypeExpr(f.t, pkg), x))
+				}
+			}
+		}
+		inputs[sp.name] = "&" + goTypeExpr(sp.t, pkg) + "{" + strings.Join(inits, ", ") + "}"
 	}
 	for _, p := range fn.Params {
 		n := pname(p)
@@ -349,7 +435,7 @@ func runReplay(w *World, fn *ssa.Function, o *Obligation, inputs map[string]stri
 	needsImports := ""
 	call := callExpr(fn, inputs)
 	for _, imp := range fn.Pkg.Pkg.Imports() {
-		if strings.Contains(call, imp.Name()+".") {
+		if regexp.MustCompile(`(^|[^A-Za-z0-9_])` + regexp.QuoteMeta(imp.Name()) + `\.`).MatchString(call) {
 			needsImports += fmt.Sprintf("\t%q\n", imp.Path())
 		}
 	}
@@ -402,6 +488,31 @@ func assignCall(fn *ssa.Function, call string) string {
 	if n == 0 {
 		return call
 	}
+	var us, pr []string
+	for i := 0; i < n; i++ {
+		u := fmt.Sprintf("gobtvcR%d", i)
+		if fn.Signature.Results().At(i).Type().String() == "error" {
+			// errors are compared by nil-ness only
+			us = append(us, u)
+			pr = append(pr, "%v")
+			continue
+		}
+		us = append(us, u)
+		pr = append(pr, "%v")
+	}
+	args := make([]string, len(us))
+	for i, u := range us {
+		if fn.Signature.Results().At(i).Type().String() == "error" {
+			args[i] = "map[bool]string{true: \"NILERR\", false: \"ERR\"}[" + u + " == nil]"
+		} else {
+			args[i] = u
+		}
+	}
+	return strings.Join(us, ", ") + " := " + call + "\n\tfmt.Printf(\"GOBTVC-RESULT " + strings.Join(pr, " ") + "\\n\", " + strings.Join(args, ", ") + ")"
+}
+
+func assignCallOld(fn *ssa.Function, call string) string {
+	n := fn.Signature.Results().Len()
 	var us, pr []string
 	for i := 0; i < n; i++ {
 		us = append(us, fmt.Sprintf("gobtvcR%d", i))
